@@ -12,6 +12,8 @@ R21.4 same-name copies: wherever a model / IR / export struct is built from the 
       fields of the same names, each field is copied from the field of the same name (no from_state/to_state swap,
       no lhs/len mix-up).
 R21.5 token numbers in the production tables: C18's rules, re-evaluated here.
+R21.6 = all C13 rules re-evaluated: the scanner tables of the generated source (terminal order, each pattern expanded with its
+      own kind, transitions unfiltered).
 """
 import re
 
@@ -217,3 +219,7 @@ def check(ctx):
     # ---------------------------------------------------------------- R21.5
     from . import c18
     c18.check(ctx)
+    # ---------------------------------------------------------------- R21.6 = C13's generation rules (added after seed C21-b)
+    # the scanner part of the generated source: terminal order, every pattern expanded with its own kind, transitions unfiltered
+    from . import c13
+    c13.check(ctx)
